@@ -370,17 +370,20 @@ def raptor_race(ctx, res, rng, idx):
                 cached = {t['uid'] for ts in c._raptor_tasks.values()
                                    for t in ts}
             return fw, cached
-        last, stable, t0 = None, 0, time.time()
+        last, stable, t0, mark = None, 0, time.time(), pair.passes
         while time.time() - t0 < 60:
             fw, cached = counts()
             snap = (sorted(fw.items()), sorted(cached),
                     pair.child._queue_sched.empty())
-            if snap == last and snap[2] and _loop_idle(pair.thread):
+            # quiet = nothing changed while the loop completed three more
+            # passes with an empty queue and no message was in delivery (a
+            # loop which was merely descheduled completes no passes)
+            if snap == last and snap[2] and env.net.settled():
                 stable += 1
-                if stable >= 8:
+                if stable >= 8 and pair.passes >= mark + 3:
                     break
             else:
-                stable, last = 0, snap
+                stable, last, mark = 0, snap, pair.passes
             time.sleep(0.01)
         else:
             res.inconc('raptor race: history did not go quiet in 60 s')
@@ -424,19 +427,6 @@ def raptor_race(ctx, res, rng, idx):
 #     loop re-tests the wait pool (a running task just ended): every task ends
 #     up in exactly one place - placed once, or canceled once
 #
-def _loop_idle(thread):
-    """the scheduling loop thread waits for input (its innermost frame is a
-    blocking queue / condition wait): decided from the thread's stack, so a
-    loop which was merely descheduled with a bulk in its hands is not idle"""
-    import sys
-    fr = sys._current_frames().get(getattr(thread, 'ident', None))
-    if fr is None:
-        return True
-    fn = fr.f_code.co_filename
-    return fr.f_code.co_name in ('wait', 'get', '_wait', 'acquire') and \
-           (fn.endswith('threading.py') or fn.endswith('queue.py'))
-
-
 def waitpool_cancel_race(ctx, res, rng, idx):
     import time
     import threading as mt
@@ -532,17 +522,17 @@ def waitpool_cancel_race(ctx, res, rng, idx):
                                              'arg': {'uids': [u]}})
 
         # quiescence: nothing moves any more
-        last, stable, t0 = None, 0, time.time()
+        last, stable, t0, mark = None, 0, time.time(), pair.passes
         while time.time() - t0 < 30:
             pl, ca = outcomes()
             snap = (sorted((u, len(v)) for u, v in pl.items()),
                     sorted(ca.items()), pair.child._queue_sched.empty())
-            if snap == last and snap[2]:
+            if snap == last and snap[2] and env.net.settled():
                 stable += 1
-                if stable >= 15:
+                if stable >= 15 and pair.passes >= mark + 3:
                     break
             else:
-                stable, last = 0, snap
+                stable, last, mark = 0, snap, pair.passes
             time.sleep(0.01)
         else:
             res.inconc('wait pool race: history did not go quiet in 30 s')
